@@ -11,7 +11,7 @@ CHECK = {
  'rule': 'one execution per tuple (fan kind hwmon/file x limits x spin threshold theta (grid + boundaries + never) x prior RPM {0,1,500,5000} x rpmRollingWindowSize x '
          'control-cycle:poll ratio {5:1,1:1,1:5} x curve value {0,128,255} x PWM map {identity; README sparse, 3-level; thorough also compressing and quantising}); the fan first runs at the prior RPM, then follows "spins iff pwm >= theta". Oracle: first raise and every further raise '
          'within 50*window+50 polls while 0 RPM is reported, the request never drops at a raise, exceeds the stalled request and never exceeds the maximum, ends with rotation or ErrFanStalledAtMaxPwm at the maximum. '
-         'distinct_nontrivial = tuples in which at least one raise happened. Also file fans configured with home-relative (~) paths. Second run: the real Run() in virtual time with a fan that never turns (hwmon with/without configured maxPwm, file; curve 0/255; window 1/3): after the maximum has been written only the hand-back writes may follow (regulation of that fan stops).',
+         'distinct_nontrivial = tuples in which at least one raise happened. Also file fans configured with home-relative (~) paths. Second run: the real Run() in virtual time with a fan that never turns (hwmon with/without configured maxPwm, file; curve 0/255; window 1/3): after the maximum has been written only the hand-back writes may follow (regulation of that fan stops). cmd fans additionally print their RPM with a decimal point; after the fan turns again the run continues for 40 polls in which the minimum must not be raised further.',
  'assumptions': COMMON_ASSUME + ['bound 50*window+50 polls stands for "tens of polls proportional to the window, not thousands"'],
  'level_text': 'bounded-response (liveness) property decided on every tuple of a finite parameter grid by running the real closed loop to completion in a deterministic simulation',
  'level_note': 'direct algorithm only (request must stay unchanged while stalled); cmd fans share the integer-average code path of file fans',
